@@ -7,3 +7,4 @@ pub mod runner;
 #[macro_use]
 pub mod sim;
 pub mod threads;
+pub mod liblog;
